@@ -1091,7 +1091,8 @@ Open ==
                  ELSE LET sl == r.tree[HashOf(k)] IN
                       IF sl = NoSlot THEN NoRef
                       ELSE IF sl.ver < 0 THEN [ref[k] EXCEPT !.ver = sl.ver] ELSE ref[k]]
-     /\ gh' = [gh EXCEPT !.treeOnly = {}, !.crashed = FALSE,
+     \* a tree-only version that the loaded tree dump preserved is still tree-only (a later rebuild may still lose it)
+     /\ gh' = [gh EXCEPT !.treeOnly = {k \in @ : r.tree[HashOf(k)] # NoSlot /\ r.tree[HashOf(k)].ver = ref[k].ver}, !.crashed = FALSE,
                          !.c06bad = @ \/ (gh.crashed /\ ~gh.gcAt /\ \E k \in Keys : ~Colliding(k) /\ ~(Mut("KF11") /\ HintAheadErr(r, k)) /\
                                                 ~AllowedAfterKill(k, ReadRecovered(r, k))),
                          !.c07bad = @ \/ (gh.crashed /\ gh.gcAt /\ \E k \in Keys : ~Colliding(k) /\
